@@ -105,6 +105,12 @@ def check(cond, label):
 def _run_job(args):
     modname, jobname, tier, seed, budget_s = args
     import importlib
+    try:
+        import faulthandler
+        import signal as _sig
+        faulthandler.register(_sig.SIGUSR1, all_threads=True)       # `kill -USR1 <worker pid>` prints where a worker is
+    except Exception:
+        pass
     t0 = time.time()
     out = dict(job=jobname, violations=[], inconclusive=None, stats=None, validated=0, wall_s=0.0)
     try:
@@ -198,12 +204,28 @@ def main(prop, modname, level="other", argv=None, extra_assumptions=(), trusted_
         with open(a.replay_batch) as f:
             batch = json.load(f)
         alljobs = {j.name: j for t in ("thorough", "quick") for j in mod.jobs(t)}
+        import signal
+
+        class _ReplayTimeout(BaseException):
+            pass
+
+        def _onalarm(signum, frame):
+            raise _ReplayTimeout()
+        signal.signal(signal.SIGALRM, _onalarm)
+        limit = float(os.environ.get("VERIF_REPLAY_TIMEOUT", "45"))
         for i, (jn, label, inp) in enumerate(batch):
             try:
-                msg = alljobs[jn].replay(unjson(inp), label)
-                print("REPLAY-RESULT %d %s" % (i, json.dumps(dict(msg=msg))))
+                signal.setitimer(signal.ITIMER_REAL, limit, 1.0)
+                try:
+                    msg = alljobs[jn].replay(unjson(inp), label)
+                finally:
+                    signal.setitimer(signal.ITIMER_REAL, 0)
+                print("REPLAY-RESULT %d %s" % (i, json.dumps(dict(msg=msg))), flush=True)
+            except _ReplayTimeout:
+                # the un-instrumented code does not come back on this concrete input: that is a reproduced misbehaviour (a hang), not a harness problem
+                print("REPLAY-RESULT %d %s" % (i, json.dumps(dict(msg="the real code did not return within %.0f s on this input (hang): %s" % (limit, json.dumps(inp)[:300])))), flush=True)
             except BaseException as e:
-                print("REPLAY-RESULT %d %s" % (i, json.dumps(dict(error=repr(e)))))
+                print("REPLAY-RESULT %d %s" % (i, json.dumps(dict(error=repr(e)))), flush=True)
         return 0
     if a.replay and os.environ.get("SYMRUN_PLAIN") != "1":
         # replays always run in a fresh interpreter on the un-instrumented code (no import hook, no shadows)
@@ -284,7 +306,7 @@ def main(prop, modname, level="other", argv=None, extra_assumptions=(), trusted_
         env = dict(os.environ, SYMRUN_PLAIN="1")
         try:
             pr = subprocess.run([sys.executable, "-m", modname, "--replay-batch", bpath], env=env,
-                                capture_output=True, text=True, timeout=600)
+                                capture_output=True, text=True, timeout=3600)
             for line in pr.stdout.splitlines():
                 if line.startswith("REPLAY-RESULT "):
                     _, idx, js = line.split(" ", 2)
